@@ -1,5 +1,5 @@
 ---------------------------- MODULE PoolLifeMC ----------------------------
-EXTENDS PoolLife
+EXTENDS PoolLife, Json, IOUtils
 FixAll == {"dupguard", "closedguard"}
 FixNone == {}
 FixNoDup == {"closedguard"}
@@ -7,6 +7,9 @@ FixNoClosed == {"dupguard"}
 KindsTP == {"thread", "process"}
 KindsP == {"process"}
 KindsAll == {"thread", "process", "remote"}
-ForcesAll == {"none", "false"}
-ForcesNone == {"none"}
+FreeBoth == {[id |-> "free", force |-> f, ops |-> <<>>] : f \in {"none", "false"}}
+FreeNone == {[id |-> "free", force |-> "none", ops |-> <<>>]}
+\* planned histories for replay: [{"id": "h0", "force": "none", "ops": ["add:process", "run", "close"]}, ...]
+PlanSeq == JsonDeserialize(IOEnv.CASE_FILE)
+PlanSet == {PlanSeq[i] : i \in 1..Len(PlanSeq)}
 =============================================================================
